@@ -144,7 +144,8 @@ def cells(tier):
         for conv in ("basic", "pydantic"):
             for b in BEHAVIOURS:
                 for mx in (0, 1, 2):
-                    for tried in range(mx + 1):
+                    # counters above the budget exist too: a forced retry puts them there
+                    for tried in range(mx + 3):
                         for recurring in (False, True):
                             for store in (False, True):
                                 out.append(dict(kind=kind, conv=conv, b=[b], max=mx, tried=tried,
